@@ -33,7 +33,8 @@ RECURSIVE ParseItem(_, _), ParseKids(_, _, _), CountVals(_, _, _)
 ParseItem(toks, p) ==
   IF p + 1 > Len(toks) \/ toks[p] # "<" \/ toks[p + 1] \notin Types THEN Bad
   ELSE LET t == toks[p + 1]
-           q == IF p + 4 <= Len(toks) /\ toks[p + 2] = "[" /\ toks[p + 4] = "]" THEN p + 5 ELSE p + 2
+           q == IF p + 4 <= Len(toks) /\ toks[p + 2] = "[" /\ toks[p + 4] = "]" /\ toks[p + 3] \notin {"<", ">", "[", "]"}
+                  THEN p + 5 ELSE p + 2
        IN IF t = "L" THEN ParseKids(toks, q, <<>>) ELSE CountVals(toks, q, [t |-> t, n |-> 0, kids |-> <<>>])
 ParseKids(toks, p, acc) ==
   IF p > Len(toks) THEN Bad
